@@ -225,6 +225,18 @@ example : ¬ HooksAtMostOnce [Ev.early "u", Ev.init "u", Ev.early "d", Ev.init "
     Ev.init "d", Ev.exit] := by
   decide
 
+/-- "each module is early-initialised, then initialised, then started, exactly once and in that order", for **every node
+that came up** — the clause of the specification itself, on the whole log: every configuration (any attachment graph,
+shared and automatic communicators, Pinatas), every schedule and choice function.  (Behind it: `core_nothing_created_late`
+— when the creation loop of `create_modules` is through, every description the node knows has been tried, so a life that
+ends without an error creates no module after it — hence every module of the node is covered by the initialisation
+loop; `hooks` of the start phase from `start_loop_complete`.)  Missing for `init_order_once_statement`: that a clean
+configuration produces no error and that every described module is created. -/
+theorem init_order_once_of_up (cfg : Cfg) (fuel : Nat) (sched : List Act) (pick : List Name → Nat)
+    (herr : (run cfg fuel sched pick).st.errors = []) (hoof : (run cfg fuel sched pick).st.oof = false) :
+    InitOrderOnce (run cfg fuel sched pick).st.modules (run cfg fuel sched pick).log :=
+  run_init_order_once cfg fuel sched pick herr hoof
+
 def init_order_once_statement : Prop :=
   ∀ (cfg : Cfg) (fuel : Nat) (sched : List Act) (pick : List Name → Nat),
     let r := run cfg fuel sched pick
@@ -575,6 +587,12 @@ theorem sample_run_accepted :
       (run sampleCfg 20 [.main, .main, .step "c"] (fun _ => 1)).log, [],
       writtenOf (run sampleCfg 20 [.main, .main, .step "c"] (fun _ => 1)).st
         (run sampleCfg 20 [.main, .main, .step "c"] (fun _ => 1)).log⟩ = [] := by
+  decide +kernel
+
+/-- the hypotheses of `init_order_once_of_up` are met by that configuration (Pinata, dynamic module, communicator) -/
+example : (run sampleCfg 20 [.main, .main, .step "c"] (fun _ => 1)).st.errors = [] ∧
+    (run sampleCfg 20 [.main, .main, .step "c"] (fun _ => 1)).st.oof = false ∧
+    (run sampleCfg 20 [.main, .main, .step "c"] (fun _ => 1)).st.modules = ["p", "u", "v", "c", "d0"] := by
   decide +kernel
 
 /-- the model never polls after a shutdown and leaves no poll thread behind (the clause is there for the
